@@ -300,6 +300,108 @@ func runC05(r *Run) {
 
 	// ---------- R4 ----------
 	journalDiscipline(r, entries)
+
+	// ---------- R5 ----------
+	r.Rule("R5", "PATH.flush-skip: StateDB.Commit runs in the middle of a transaction (before every precompile dispatch), so 'nothing to write' for a dirty slot is judged against what an earlier flush of this transaction wrote (transientStorage) whenever such a value exists, and against the originally loaded value only when it does not: the comparison with originStorage is reachable only over the not-found edge of the transientStorage lookup, and each SetState is followed by recording the value in transientStorage — otherwise a slot flushed inside a frame that later reverts keeps the reverted value in the store")
+	if cm, ok := P.FnOK("(*x/evm/statedb.StateDB).Commit"); ok {
+		var notFound []Edge
+		var originCmp []ssa.Instruction
+		var bodyStart []*ssa.BasicBlock
+		for _, b := range cm.Blocks {
+			for _, in := range b.Instrs {
+				if l, ok := in.(*ssa.Lookup); ok {
+					if _, f, ok := fieldOfAddr(addrOfLoad(l.X)); ok && f == "dirtyStorage" {
+						bodyStart = append(bodyStart, b)
+					}
+				}
+			}
+			ifi, ok := lastIf(b)
+			if !ok {
+				continue
+			}
+			cond, neg := ifi.Cond, false
+			for {
+				u, ok := cond.(*ssa.UnOp)
+				if !ok || u.Op != token.NOT {
+					break
+				}
+				cond, neg = u.X, !neg
+			}
+			if e, ok := cond.(*ssa.Extract); ok && e.Index == 1 {
+				if l, ok := e.Tuple.(*ssa.Lookup); ok && l.CommaOk {
+					if _, f, ok := fieldOfAddr(addrOfLoad(l.X)); ok && f == "transientStorage" {
+						if neg {
+							notFound = append(notFound, Edge{b, 0})
+						} else {
+							notFound = append(notFound, Edge{b, 1})
+						}
+					}
+				}
+			}
+			if bo, ok := cond.(*ssa.BinOp); ok && (bo.Op == token.EQL || bo.Op == token.NEQ) {
+				fromOrigin := func(v ssa.Value) bool {
+					return backSlice(v).Any(func(x ssa.Value) bool {
+						l, ok := x.(*ssa.Lookup)
+						if !ok {
+							return false
+						}
+						_, f, ok := fieldOfAddr(addrOfLoad(l.X))
+						return ok && f == "originStorage"
+					})
+				}
+				if fromOrigin(bo.X) || fromOrigin(bo.Y) {
+					originCmp = append(originCmp, ifi)
+				}
+			}
+		}
+		okSkip := len(notFound) > 0 && len(originCmp) > 0 && len(bodyStart) > 0
+		var wit []string
+		for _, sb := range bodyStart {
+			w := PathQuery{Fn: cm, StartBlock: sb, Target: func(in ssa.Instruction) bool {
+				for _, oc := range originCmp {
+					if in == oc {
+						return true
+					}
+				}
+				return false
+			}, DelEdge: edgeSet(notFound)}.Search()
+			if w != nil {
+				okSkip = false
+				wit = P.witness(w)
+			}
+		}
+		r.Check(okSkip, "R5", fnID(cm)+"#origin-compared-only-when-never-flushed", P.Pos(fnPos(cm)), "dirty == origin is consulted only when the slot was not flushed earlier in this transaction",
+			"StateDB.Commit can decide 'nothing to write' by comparing the dirty value with the originally loaded value although an earlier flush of this transaction already wrote another value: SSTORE in a frame, precompile call (flush), frame reverts — the final commit skips the write-back and the reverted value stays in the store", wit...)
+		// every SetState is followed by the transientStorage update
+		isSetState := isCallMatching(func(ci CallInfo) bool { return ci.Name == "SetState" && ci.Invoke })
+		isRec := func(in ssa.Instruction) bool {
+			mu, ok := in.(*ssa.MapUpdate)
+			if !ok {
+				return false
+			}
+			_, f, ok := fieldOfAddr(addrOfLoad(mu.Map))
+			return ok && f == "transientStorage"
+		}
+		nSS := 0
+		eachInstr(cm, func(in ssa.Instruction) {
+			if !isSetState(in) {
+				return
+			}
+			nSS++
+			lb := in.Block()
+			w := PathQuery{Fn: cm, Start: in, Block: isRec, Target: func(x ssa.Instruction) bool {
+				if _, ok := x.(*ssa.Return); ok {
+					return true
+				}
+				b := x.Block()
+				return x == b.Instrs[0] && b != lb && isLoopHeader(b) && dominates(b, lb)
+			}}.Search()
+			r.Check(w == nil, "R5", fmt.Sprintf("%s#flushed-value-recorded-%d", fnID(cm), nSS), P.Pos(instrPos(in)), "SetState is followed by transientStorage[key] = value", "a flushed storage value is not recorded in transientStorage: a later Commit of the same transaction compares against the stale original value and skips or repeats writes", P.witness(w)...)
+		})
+		r.Floor("R5", "SetState calls in StateDB.Commit", nSS, 1)
+	} else {
+		r.Bad("R5", "anchor/StateDB.Commit", "", "not found")
+	}
 }
 
 var revertibleObjFields = map[string]bool{"account": true, "code": true, "dirtyCode": true, "dirtyStorage": true, "suicided": true}
